@@ -12,7 +12,7 @@ Verdict(r) ==
   LET RB == Aux.rbs[r.rb]
       d == AMakeDiff(RB, r.old, r.new)
   IN IF Strip(Bare(d)) # r.diff THEN "diff-differs"
-     ELSE IF Dedup(APaths(RB.exit, APatch(RB.prefix, d), <<>>)) # r.cmds THEN "commands-differ"
+     ELSE IF ACmdsOf(RB, d) # r.cmds THEN "commands-differ"
      ELSE "same"
 Init == i = 0
 Next == /\ i < Len(Recs) /\ i' = i + 1
